@@ -28,7 +28,12 @@ var c05DBs = [][]int{
 	nil,                            // index 3: the 40-entry database (more than 10 scoring candidates: limit-dependent re-rank window)
 }
 
-var c05Queries = []string{"git files", "GIT Files", " git files ", "comprss", " comprss ", "tar", "git files tar compress zip qzx", "files folder"}
+var c05Queries = []string{"git files", "GIT Files", " git files ", "comprss", " comprss ", "tar", "git files tar compress zip qzx", "files folder", "list files"}
+
+// c05BoostWord: a word that is NOT in query 8 and whose context boost nevertheless changes query 8's NLP
+// answer on the 40-entry database (the NLP stage adds terms to the query and boosts apply to those too).
+// Both are selected by newC05World, deterministically.
+var c05BoostWord = "files"
 
 type c05Opt struct {
 	Name string
@@ -60,11 +65,13 @@ func c05Options() []c05Opt {
 		mk("NLP+Limit20", func(o *Opts) { o.UseNLP, o.Limit = true, 20 }),
 		mk("Limit0", func(o *Opts) { o.Limit = 0 }),
 		mk("Limit25", func(o *Opts) { o.Limit = 25 }),
+		// used by the wrappers plan only
+		mk("NLP+BoostOnAddedTerm", func(o *Opts) { o.UseNLP, o.ContextBoosts = true, map[string]float64{c05BoostWord: 3} }),
 	}
 }
 
 type c05Op struct {
-	Kind string `json:"op"` // search invalidate disable enable sweep adv-half adv-ttl update
+	Kind string `json:"op"` // search other invalidate disable enable sweep adv-half adv-ttl update
 	Q    int    `json:"q,omitempty"`
 	O    int    `json:"o,omitempty"`
 	DB   int    `json:"db,omitempty"`
@@ -73,6 +80,9 @@ type c05Op struct {
 func (o c05Op) String() string {
 	if o.Kind == "search" {
 		return fmt.Sprintf("search(%q,%s)", c05Queries[o.Q], c05Options()[o.O].Name)
+	}
+	if o.Kind == "other" {
+		return fmt.Sprintf("second-wrapper-search(%q,%s)", c05Queries[o.Q], c05Options()[o.O].Name)
 	}
 	if o.Kind == "update" {
 		return fmt.Sprintf("update(db%d)", o.DB)
@@ -94,6 +104,8 @@ type c05World struct {
 	fresh [4]*database.Database // never touched by the history
 	memo  map[[3]int]string     // (db, q, o) -> digest
 	opts  []c05Opt
+	// boostSelected: a (query, word not in it) pair was found whose boost changes the NLP answer
+	boostSelected bool
 }
 
 func newC05World(c *lib.Ctx) *c05World {
@@ -118,6 +130,37 @@ func newC05World(c *lib.Ctx) *c05World {
 			break
 		}
 	}
+	// query 8 + boost word drive the wrappers plan (see c05BoostWord)
+	w.boostSelected = false
+	words := append([]string{}, uWords...)
+	for _, cm := range uForty() {
+		words = append(words, cm.Keywords...)
+	}
+	base := Opts{Limit: 3, UseNLP: true}
+sel:
+	for _, q := range append([]string{"list files", "install package", "show folder contents", "compress folder", "search text", "delete files", "download file", "find files"}, uQueries(uWords, 2)...) {
+		toks := map[string]bool{}
+		for _, t := range strings.Fields(strings.ToLower(q)) {
+			toks[t] = true
+		}
+		a := uDigest(uItems(w.fresh[3], w.fresh[3].SearchUniversal(q, base)))
+		if a == "" {
+			continue
+		}
+		for _, wd := range words {
+			wl := strings.ToLower(wd)
+			if toks[wl] || strings.ContainsAny(wl, " -.") || wl == "" {
+				continue
+			}
+			o := base
+			o.ContextBoosts = map[string]float64{wl: 3}
+			if b := uDigest(uItems(w.fresh[3], w.fresh[3].SearchUniversal(q, o))); b != a {
+				c05Queries[8], c05BoostWord, w.boostSelected = q, wl, true
+				break sel
+			}
+		}
+	}
+	w.opts = c05Options()
 	return w
 }
 
@@ -144,6 +187,14 @@ func c05Alphabet(kind string) []c05Op {
 		ops = append(ops, c05Op{Kind: "search", Q: 0, O: 0}, c05Op{Kind: "search", Q: 0, O: 7}, c05Op{Kind: "search", Q: 3, O: 5})
 		mut("invalidate", "disable", "enable", "sweep", "adv-half", "adv-ttl")
 		ops = append(ops, c05Op{Kind: "update", DB: 0}, c05Op{Kind: "update", DB: 1}, c05Op{Kind: "update", DB: 2})
+		return ops
+	case "wrappers":
+		// two wrappers in one process (the second around another database), and a boost on a term that only
+		// the NLP stage adds to the query
+		ops = append(ops, c05Op{Kind: "search", Q: 0, O: 0}, c05Op{Kind: "search", Q: 0, O: 7}, c05Op{Kind: "search", Q: 8, O: 7}, c05Op{Kind: "search", Q: 8, O: 16},
+			c05Op{Kind: "other", Q: 0, O: 0}, c05Op{Kind: "other", Q: 8, O: 16})
+		mut("invalidate")
+		ops = append(ops, c05Op{Kind: "update", DB: 1})
 		return ops
 	case "big":
 		// the 40-entry database: limits around the re-rank window, with and without NLP
@@ -184,6 +235,16 @@ func c05Run1(w *c05World, cs c05Case) (*lib.Violation, string) {
 	base := &database.Database{Commands: cmds}
 	mdb := database.NewMonitoredDatabase(base)
 	mdb.UpdateDatabase(cmds) // builds index and re-ranker through the public API
+	// a second wrapper in the same process, around another database (created before the history starts)
+	const otherDB = 0
+	var other *database.MonitoredDatabase
+	for _, op := range cs.Ops {
+		if op.Kind == "other" && other == nil {
+			oc := append([]Cmd{}, w.cmds[otherDB]...)
+			other = database.NewMonitoredDatabase(&database.Database{Commands: oc})
+			other.UpdateDatabase(oc)
+		}
+	}
 	search := func(q string, o Opts) []database.SearchResult {
 		if cs.Entry == "monitored" {
 			return mdb.SearchWithOptionsAndMonitoring(q, o)
@@ -216,6 +277,10 @@ func c05Run1(w *c05World, cs c05Case) (*lib.Violation, string) {
 					// classify: the latest earlier search whose correct answer is what was served now
 					for j := i - 1; j >= 0; j-- {
 						p := cs.Ops[j]
+						if p.Kind == "other" && got != "" && w.expected(otherDB, p.Q, p.O) == got {
+							key = "entry-of-another-wrapper"
+							break
+						}
 						if p.Kind != "search" || w.expected(verAt[j], p.Q, p.O) != got || got == "" {
 							continue
 						}
@@ -236,6 +301,21 @@ func c05Run1(w *c05World, cs c05Case) (*lib.Violation, string) {
 						break
 					}
 					viol = &lib.Violation{Key: key, What: fmt.Sprintf("%s entry point, step %d %s: answer differs from an uncached search of the current database with the same query and options (history: %v)", cs.Entry, i+1, op, cs.Ops),
+						Case: cs, Observed: got, Expected: want}
+					return
+				}
+			case "other":
+				var rs []database.SearchResult
+				if cs.Entry == "monitored" {
+					rs = other.SearchWithOptionsAndMonitoring(c05Queries[op.Q], w.opts[op.O].O)
+				} else {
+					rs = other.SearchWithOptionsAndCache(c05Queries[op.Q], w.opts[op.O].O)
+				}
+				got := uDigest(uItems(other.Database, rs))
+				want := w.expected(otherDB, op.Q, op.O)
+				obs += "o:" + got + "/"
+				if got != want {
+					viol = &lib.Violation{Key: "second-wrapper-served-foreign-entry", What: fmt.Sprintf("%s entry point, step %d %s: a second wrapper around another database does not get that database's uncached answer (history: %v)", cs.Entry, i+1, op, cs.Ops),
 						Case: cs, Observed: got, Expected: want}
 					return
 				}
@@ -309,9 +389,16 @@ func c05Run(c *lib.Ctx) {
 		depth int
 		start int
 	}
-	plans := []plan{{"full", 3, 0}, {"mutators", 5, 0}, {"big", 3, 3}}
+	plans := []plan{{"full", 3, 0}, {"mutators", 5, 0}, {"big", 3, 3}, {"wrappers", 4, 3}}
 	if c.Thorough() {
-		plans = []plan{{"full", 3, 0}, {"colliding", 4, 0}, {"mutators", 6, 0}, {"big", 4, 3}}
+		plans = []plan{{"full", 3, 0}, {"colliding", 4, 0}, {"mutators", 6, 0}, {"big", 4, 3}, {"wrappers", 5, 3}}
+	}
+	if c.Shard == 0 {
+		if !w.boostSelected {
+			c.Fail("vacuous: no (query, word outside it) pair whose context boost changes the NLP answer on the 40-entry database")
+		} else {
+			c.Note("boost on an NLP-added term: query %q, word %q", c05Queries[8], c05BoostWord)
+		}
 	}
 	if c.Shard == 0 {
 		// the limit-dependent re-rank window must be observable on the 40-entry database
@@ -327,7 +414,7 @@ func c05Run(c *lib.Ctx) {
 		alpha := c05Alphabet(pl.kind)
 		for _, seq := range uSequences(len(alpha), pl.depth) {
 			// a history without a search as its last step observes nothing new
-			if alpha[seq[len(seq)-1]].Kind != "search" {
+			if k := alpha[seq[len(seq)-1]].Kind; k != "search" && k != "other" {
 				continue
 			}
 			idx++
@@ -398,7 +485,7 @@ func init() {
 	_ = strconv.Itoa
 	lib.Register(&lib.Check{
 		ID: "C05", Level: "model_checking",
-		Rule:      "sequence-mode exploration: every history ending in a search of length <=3 over the full alphabet (7 queries incl. case variant, padded variants, a typo and a 6-term query x 12 option settings = base + one single-field delta per SearchOptions field, + invalidate, disable, enable, sweep, advance TTL/2, advance TTL+1s, replace database A/B/C (C has A's size) = 93 operations) + every history of length <=5 (thorough 6) over 3 searches and all 9 mutators (long runs of switches, sweeps, clock advances and replacements) + every history of length <=3 (thorough 4) on a 40-entry database over 10 searches with limits {0,2,3,20,25} with and without NLP (limit-dependent re-rank window) and 5 mutators + (thorough) of length <=4 over the 38+8 most colliding operations; entry points SearchWithOptionsAndCache and SearchWithOptionsAndMonitoring; cold and warm start; virtual clock. After every search the caller scrambles the slice it was given (as the CLI's in-place re-sort does), and the answer must equal, bit for bit, SearchUniversal on a freshly loaded copy of the current commands. evaluations = histories executed on the real objects (= traces validated); non-trivial = histories with a distinct sequence of answers",
+		Rule:      "sequence-mode exploration: every history ending in a search of length <=3 over the full alphabet (7 queries incl. case variant, padded variants, a typo and a 6-term query x 12 option settings = base + one single-field delta per SearchOptions field, + invalidate, disable, enable, sweep, advance TTL/2, advance TTL+1s, replace database A/B/C (C has A's size) = 93 operations) + every history of length <=5 (thorough 6) over 3 searches and all 9 mutators (long runs of switches, sweeps, clock advances and replacements) + every history of length <=3 (thorough 4) on a 40-entry database over 10 searches with limits {0,2,3,20,25} with and without NLP (limit-dependent re-rank window) and 5 mutators + every history of length <=4 (thorough 5) of the wrappers plan: searches on the wrapper under test and on a SECOND wrapper around another database in the same process (each must get its own database's uncached answer), a search with NLP and one with NLP plus a context boost on a word that is not in the query but among the terms the NLP stage adds (selected at run time so that the boost changes the answer), invalidate, replace + (thorough) of length <=4 over the 38+8 most colliding operations; entry points SearchWithOptionsAndCache and SearchWithOptionsAndMonitoring; cold and warm start; virtual clock. After every search the caller scrambles the slice it was given (as the CLI's in-place re-sort does), and the answer must equal, bit for bit, SearchUniversal on a freshly loaded copy of the current commands. evaluations = histories executed on the real objects (= traces validated); non-trivial = histories with a distinct sequence of answers",
 		Assume:    []string{"host pinned, map order pinned, clock virtual (vtime)", "non-finite option values are outside the option domain"},
 		QuickSecs: 300, ThorSecs: 2400,
 		Run: c05Run,
